@@ -9,7 +9,7 @@ from vlib import shim as shimmod
 LEVEL = "exploration"
 RULE = ("generated: n in 8..64, 1-6 buckets with 0-3 empty ones (bucket numbers as main.cpp forms them), spacing >= n, "
         "transform length N from a pool of powers of two / composites / odd / primes (16..1024), arbitrary complex "
-        "impedance samples (log-uniform magnitude over 6 decades, any phase; bin floor(N/2) = 0), arbitrary profiles "
+        "impedance samples (log-uniform magnitude over 6 decades, any phase; bin floor(N/2) zero in half of the cases, otherwise arbitrary and required to stay unseen), arbitrary profiles "
         "(smooth, impulse, signed noise), machine numbers log-uniform.  Reference: direct O(N^2) float64 DFT. "
         "non-trivial = Im Z != 0 on at least a quarter of the used bins and Z not constant; distinct = case hash. "
         "Metamorphic variants: linearity, shift inside the bucket, independence of the negative-frequency half")
@@ -36,7 +36,11 @@ def make_Z(r, N, kind):
     else:
         z = mag * np.exp(1j * ph)
     z = z.astype(np.complex64)
-    z[N // 2] = 0        # boundary bin: the statement does not decide whether it belongs to the half (DESIGN.md)
+    # boundary bin floor(N/2): C06's own statement does not say whether it belongs to "the half", but C07's does (the
+    # wake side of the Parseval relation lacks "the zero-frequency and Nyquist terms"), and the anchored mechanism is
+    # "multiply first half by Z" (N/2 samples).  Half of the cases therefore carry a value there, which must stay unseen.
+    if r.random() < 0.5:
+        z[N // 2] = 0
     return z
 
 
